@@ -276,7 +276,11 @@ func c20ServerApply(c *core.Ctx, k c20Case) {
 	c20ScanPlaintext(c, k, fileBytes, patch, ref, k.JSON)
 	// ---- direct oracle: only what the patch sets changes
 	bad := func(field string) {
-		c.Violate("C20/server-apply/"+field, "after applying the patch, "+field+" is neither the patch's value (if set) nor the previous one", k)
+		key := field
+		if i := strings.Index(key, "["); i >= 0 {
+			key = key[:i] // the entry's name belongs in the message, not in the finding key
+		}
+		c.Violate("C20/server-apply/"+key, "after applying the patch, "+field+" is neither the patch's value (if set) nor the previous one", k)
 	}
 	if len(patch.PortBindings) > 0 {
 		if !proto.Equal(&pb.ServerConfig{PortBindings: patch.PortBindings}, &pb.ServerConfig{PortBindings: after.PortBindings}) {
@@ -465,7 +469,11 @@ func c20ClientApply(c *core.Ctx, k c20Case) {
 		return
 	}
 	bad := func(field string) {
-		c.Violate("C20/client-apply/"+field, "after applying the patch, "+field+" is neither the patch's value (if set) nor the previous one", k)
+		key := field
+		if i := strings.Index(key, "["); i >= 0 {
+			key = key[:i]
+		}
+		c.Violate("C20/client-apply/"+key, "after applying the patch, "+field+" is neither the patch's value (if set) nor the previous one", k)
 	}
 	str := func(p, b *string) string {
 		if p != nil {
@@ -575,5 +583,44 @@ func c20ClientApply(c *core.Ctx, k c20Case) {
 	c.Compared()
 	if got := "ok " + c20ClientTokens(after, false); m2 != got {
 		c.Disagree("C20/corr/apply-client", fmt.Sprintf("model %.240s impl %.240s", m2, got), k)
+	}
+}
+
+// c20ClientLink offers an arbitrary text to ApplyURLClientConfig on top of a stored valid configuration:
+// it is either rejected (file untouched) or what is stored afterwards is a valid configuration.
+func c20ClientLink(c *core.Ctx, k c20Case) {
+	rawD, _ := base64.StdEncoding.DecodeString(k.PB)
+	dst := &pb.ClientConfig{}
+	if proto.Unmarshal(rawD, dst) != nil {
+		return
+	}
+	path := c20ClientPath(c, k.JSON)
+	os.Remove(path)
+	if err := appctl.StoreClientConfig(proto.Clone(dst).(*pb.ClientConfig)); err != nil {
+		return
+	}
+	base, err := appctl.LoadClientConfig()
+	if err != nil {
+		return
+	}
+	var aerr error
+	if c20Guard(c, k, "ApplyURLClientConfig", func() { aerr = appctl.ApplyURLClientConfig(string(k.text())) }) {
+		return
+	}
+	c.Eval(c20Key(k), aerr == nil)
+	c.Hist("file", fmt.Sprintf("client-link ok=%v", aerr == nil))
+	after, err := appctl.LoadClientConfig()
+	if err != nil {
+		c.Violate("C20/client-apply/config-unloadable", fmt.Sprintf("after ApplyURLClientConfig (err=%v) the stored configuration does not load: %v", aerr, err), k)
+		return
+	}
+	if aerr != nil {
+		if !proto.Equal(after, base) {
+			c.Violate("C20/client-apply/rejected-patch-changed-config", fmt.Sprintf("ApplyURLClientConfig failed (%v) but the stored configuration changed", aerr), k)
+		}
+		return
+	}
+	if verr := appctl.ValidateFullClientConfig(after); verr != nil {
+		c.Violate("C20/client-apply/accepted-link-stores-invalid-config", fmt.Sprintf("ApplyURLClientConfig accepted the text but the stored configuration is invalid: %v", verr), k)
 	}
 }
